@@ -205,6 +205,42 @@ def run(ctx):
     if tb:
         s3 = U.analyze(tb[0].id, frozenset())
         R.ob(not s3, "U-RETURN", tb[0].where(), "U-RETURN|topics_as_b256", "filter positions are reordered")
+    # the filter is *positional*: whatever turns the request's topic list into the list get_logs receives keeps one entry per
+    # position, in order (null entries included).  Any adapter between the request's list and collect() that can drop, add or
+    # reorder entries (filter, filter_map, flat_map, skip, take, rev, dedup, ...) shifts later positions.
+    import wire as W3
+    LENGTH_PRESERVING = {"iter", "into_iter", "map", "cloned", "copied", "collect", "by_ref", "as_ref", "clone", "deref", "to_vec", "enumerate"}
+    n_conv = 0
+    for (name, ms, hh, creg) in roles.rpc_methods(F):
+        if name != "eth_getLogs":
+            continue
+        for h in hh:
+            for dsc in F.descendants(h):
+                for c in dsc.calls():
+                    if (c.method or "") != "get_logs" or dsc.is_cleanup(c.bb):
+                        continue
+                    g3 = F.fns.get(c.target_id)
+                    pn3 = (g3.j.get("param_names") or []) if g3 else []
+                    if "topics" not in pn3:
+                        continue
+                    t = W3.resolve(F, dsc, origin(dsc, c.args[pn3.index("topics")]))
+                    convs = [F.fn_opt(x[1]) for x in calls_in(t)]
+                    convs = [x for x in convs if x is not None and x.blocks]
+                    bodies = [dsc] if not convs else []
+                    for cv in convs:
+                        bodies += [cv] + F.descendants(cv.id)
+                    for b in bodies:
+                        for cc in b.calls():
+                            if b.is_cleanup(cc.bb):
+                                continue
+                            tr = (cc.trait or "")
+                            if tr.endswith("Iterator") or tr.endswith("IntoIterator") or tr.endswith("DoubleEndedIterator"):
+                                n_conv += 1
+                                R.ob((cc.method or "") in LENGTH_PRESERVING, "WIRE", cc.where(), "WIRE|eth_getLogs|topics-positional:%s" % (cc.method or "?"),
+                                     "the request's topic list passes through `%s` on its way to get_logs: entries can be dropped, added or reordered, so "
+                                     "later positions are matched against the wrong topic" % (cc.method or "?"),
+                                     sample={"rule": "WIRE", "fn": b.name[-50:], "adapter": cc.method})
+    R.floor("topic_conversion_adapters", n_conv, 3)
     return R
 
 
